@@ -1,4 +1,5 @@
 import Agd.Model.Config
+import Agd.Model.ConfigShape
 import Agd.Driver.Util
 /-!
 Line-protocol driver for the C20 model.
@@ -15,6 +16,9 @@ Line-protocol driver for the C20 model.
   on the last configuration (`absent|bad|good` for URLs): `ok` or `err VAR[;VAR…]`; `envbuild` — the builder
   steps that dereference those variables: `ok` or `panic …`.
 * `handle is4 tcp respLen` — one query: `served w`, `stuck path` or `panic …`.
+* `shape if=b web=kind lurl=b qlog=b ac=kind g=ddr/tls/srv,srv…/profiles …` — a file whose server groups are
+  rebuilt from scratch: `ok` or `err server_groups.<i>.<part>:<kind>`; `startup` — the builder steps of `Main`
+  over the last shape: `ok tickets=… tls=n web=b qlog=b prof=b groups=n`, `xerr <stage>` or `panic <stage>`.
 -/
 namespace Agd.Driver.C20
 open Agd.Config Agd.Driver
@@ -23,6 +27,7 @@ structure S where
   c : Config := {}
   parseOk : Bool := true
   e : Env := {}
+  sh : Shape.Shape := {}
 
 def url! (s : String) : UrlSt := if s == "good" then .good else if s == "bad" then .badScheme else .absent
 
@@ -215,7 +220,79 @@ def showPanic : Panic → String
 def showCache : CacheType → String
   | .none => "none" | .simple => "simple" | .ecs => "ecs"
 
+/-! ### Shapes -/
+
+def srv! : String → Option Shape.Srv
+  | "dns" => some .dns | "dnsif" => some .dnsIf | "tls" => some .tls | "https" => some .https
+  | "quic" => some .quic | "dnscrypt" => some .dnscrypt | _ => none
+
+/-- The `tls` section of group `i` by kind; the key files are the ones the harness writes. -/
+def tls! (i : Nat) : String → Option (Option Shape.Tls)
+  | "absent" | "null" => some none
+  | "empty" => some (some { certs := 0, wild := false })
+  | "full" => some (some { keys := [2*i+1, 2*i] })
+  | "nokeys" => some (some {})
+  | "nowild" => some (some { keys := [2*i+1, 2*i], wild := false })
+  | "nocerts" => some (some { certs := 0, keys := [2*i+1, 2*i] })
+  | "nullcert" => some (some { nilCert := true, keys := [2*i+1, 2*i], wild := false })
+  | "shared" => some (some { keys := [9, 2*i, 9] })
+  | _ => none
+
+def group! (i : Nat) (t : String) : Option Shape.Group :=
+  match t.splitOn "/" with
+  | [ddr, tls, srvs, prof] =>
+    match tls! i tls, (srvs.splitOn ",").filter (· ≠ "") |>.mapM srv! with
+    | some tl, some ss => some { ddr := ddr != "absent" && ddr != "null", tls := tl, srvs := ss, profiles := bool! prof }
+    | _, _ => none
+  | _ => none
+
+def applyShape : Shape.Shape → List String → Option Shape.Shape
+  | sh, [] => some sh
+  | sh, t :: r =>
+    match t.splitOn "=" with
+    | ["if", v] => applyShape { sh with ifaces := bool! v } r
+    | ["web", v] => applyShape { sh with web := v != "absent" && v != "null",
+                                          linkedIp := v != "absent" && v != "null" && v != "timeout" && v != "nolinked" } r
+    | ["lurl", v] => applyShape { sh with linkedUrl := bool! v } r
+    | ["qlog", v] => applyShape { sh with qlog := bool! v } r
+    | ["ac", _] => applyShape sh r
+    | ["g", v] =>
+      match group! sh.groups.length v with
+      | some g => applyShape { sh with groups := sh.groups ++ [g] } r
+      | none => none
+    | _ => none
+
+def showPart : Shape.Part → String
+  | .groups => "" | .ddr => ".ddr" | .servers => ".servers" | .tls => ".tls" | .certs => ".tls.certificates"
+  | .cert0 => ".tls.certificates.0"
+
+def showKind : Shape.Kind → String
+  | .empty => "empty" | .noValue => "novalue" | .cross => "cross"
+
+def showShapeErr : Shape.Err → String
+  | (_, .groups, k) => "err server_groups:" ++ showKind k
+  | (i, p, k) => s!"err server_groups.{i}{showPart p}:{showKind k}"
+
+def showStage : Shape.Stage → String
+  | .tlsManager => "tls_manager" | .serverGroups => "server_groups" | .web => "web"
+
+def showStarted (st : Shape.Started) : String :=
+  s!"ok tickets={",".intercalate (st.tickets.map fun k => s!"k{k}")} tls={st.tlsSrvs} web={showB st.web} " ++
+  s!"qlog={showB st.qlog} prof={showB st.profiles} groups={st.groups}"
+
 def step (s : S) : List String → S × String
+  | "shape" :: toks =>
+    match applyShape {} toks with
+    | none => (s, "bad-op")
+    | some sh =>
+      match Shape.validate sh with
+      | none => ({ s with sh := sh }, "ok")
+      | some e => ({ s with sh := sh }, showShapeErr e)
+  | ["startup"] =>
+    match Shape.startup false s.sh with
+    | .ok st => (s, showStarted st)
+    | .xerr g => (s, "xerr " ++ showStage g)
+    | .panic g => (s, "panic " ++ showStage g)
   | "cfg" :: toks =>
     match apply {} toks with
     | none => (s, "bad-op")
